@@ -10,7 +10,7 @@
    Memory safety of unsafe code, stack depth and allocation bounds are
    observed in child processes by the harness, not proved. *)
 From Coq Require Import List ZArith String Bool Lia.
-From YV Require Import Cond.HostTypes Cond.HostModel Cond.HostModelProofs Cond.Traps Cond.TrapsProofs Gen.HostFns.
+From YV Require Import Cond.HostTypes Cond.HostModel Cond.HostModelProofs Cond.Traps Cond.TrapsProofs Cond.StrModel Cond.StrModelProofs Gen.HostFns.
 Import ListNotations.
 Local Open Scope Z_scope.
 
@@ -129,6 +129,42 @@ Proof.
   - apply console_range_total; try assumption. destruct prof; vm_compute; reflexivity.
 Qed.
 Print Assumptions repaired_functions_total.
+
+(* ------------------------------------------------------------------ string operators *)
+
+(* string_ops_no_panic: the host functions behind contains / icontains /
+   startswith / istartswith / endswith / iendswith / iequals / == != < > <= >=
+   (lib/src/wasm/string.rs) do not panic for ANY pair of byte strings (any
+   lengths: empty, shorter, equal, longer; ASCII or not), on every evaluation
+   path (case-sensitive bstr operation, case-insensitive ASCII fast path,
+   to_lowercase path): the fast paths slice the haystack behind the length
+   guards regenerated from the source (str_guards) *)
+Theorem string_ops_no_panic : forall op a b, str_eval str_guards op a b <> RPanic.
+Proof. intros op a b. apply str_eval_no_panic. vm_compute. reflexivity. Qed.
+Print Assumptions string_ops_no_panic.
+
+(* for any guards: the three guards in front of a slice / windows() suffice *)
+Theorem string_ops_no_panic_if_guarded : forall g op a b, needed_sguards g = true -> str_eval g op a b <> RPanic.
+Proof. exact str_eval_no_panic. Qed.
+Print Assumptions string_ops_no_panic_if_guarded.
+
+(* refuted without the guards (independent of the source): `"ab" iendswith
+   "xyzAB"` without the suffix-length guard, `"ab" istartswith "ABxyz"` without
+   the prefix-length guard, `"ab" icontains ""` without the empty-needle guard;
+   and every longer right operand panics once its guard is gone *)
+Theorem string_ops_refuted :
+  str_eval (mkSGuards true true true false) OIEndsWith [97; 98] [120; 121; 122; 65; 66] = RPanic /\
+  str_eval (mkSGuards true true false true) OIStartsWith [97; 98] [65; 66; 120; 121; 122] = RPanic /\
+  str_eval (mkSGuards false true true true) OIContains [97; 98] [] = RPanic /\
+  (forall g h s, sg_ends_len g = false -> blen h < blen s -> ci_ends_fast g h s = RPanic) /\
+  (forall g h p, sg_starts_len g = false -> blen h < blen p -> ci_starts_fast g h p = RPanic).
+Proof. repeat split; try (vm_compute; reflexivity); [exact ends_guard_needed|exact starts_guard_needed]. Qed.
+Print Assumptions string_ops_refuted.
+
+(* the guarded istartswith fast path computes the reference prefix test *)
+Theorem istartswith_fast_path_correct : forall h p, ci_starts_fast str_guards h p = Ret (starts true h p).
+Proof. intros h p. apply ci_starts_fast_spec. vm_compute. reflexivity. Qed.
+Print Assumptions istartswith_fast_path_correct.
 
 (* ------------------------------------------------------------------ WASM traps *)
 
